@@ -473,6 +473,9 @@ type c13desc struct {
 	Muts    []mut `json:"muts"`
 	Queries []qd  `json:"queries"`
 	Racing  bool  `json:"racing_queries"`
+	// Backlog: the index worker is stalled inside Index.Key while one writer issues all mutations (more than
+	// the 256-slot task queue holds), then released; see applyBacklog.
+	Backlog bool `json:"backlog"`
 }
 
 func runC13(d c13desc, dist map[string]int, impl *[]ImplViolation) Case {
@@ -492,7 +495,13 @@ func runC13(d c13desc, dist map[string]int, impl *[]ImplViolation) Case {
 			}
 		}()
 	}
-	e.applyAll(d.Muts)
+	if d.Backlog {
+		if !e.applyBacklog(d.Muts, dist) {
+			*impl = append(*impl, ImplViolation{What: "backlog scenario: the writer did not finish after the stalled index task was released (writer or index queue hung)", Desc: d, Tags: []string{"backlog"}})
+		}
+	} else {
+		e.applyAll(d.Muts)
+	}
 	e.qs.Flush()
 	atomic.StoreInt32(&stop, 1)
 	wg.Wait()
@@ -684,12 +693,32 @@ func mainC13(o Opts, nul bool) {
 			}
 			cases = append(cases, c)
 		}
+		// backlog histories: > 256 outstanding index tasks, further key-changing writes and deletes on ids
+		// that still have an unapplied change queued, release, Flush, then the usual queries
+		backlog := []int{330, 560}
+		if o.Tier == "thorough" {
+			backlog = []int{300, 420, 560, 800, 1200, 2000}
+		}
+		if o.N > 0 && o.N < 20 {
+			backlog = nil
+		}
+		for bi, bn := range backlog {
+			ms := genHistory(r, bn, false)
+			d := c13desc{Muts: ms, Queries: genQueries(r, ms, false, 120), Racing: bi%2 == 1, Backlog: true}
+			c := runC13(d, dist, &impl)
+			dist["backlog_histories"]++
+			dist["mutations"] += bn
+			if c.Nontrivial {
+				dist["nontrivial"]++
+			}
+			cases = append(cases, c)
+		}
 		for i := 0; i < races; i++ {
 			flushRace(&impl, dist)
 		}
 	}
 	Emit(o, "C13", "From GoRes Require Import Run.Run_C13.", "c13case",
-		"random mutation histories (1-30 creates / key-changing and key-keeping updates / deletes / failing operations over 4 ids, two indexes, one with nil keys) on a real BadgerDB, Flush, then index queries: prefix (empty, partial, full key, longer, containing NUL / ':' / 0xFF) x key filter x offset -1..3 x limit -3..3 x Reverse; every fourth history with queries racing the index maintenance; Flush-race scenario with the index task held in Index.Key; non-trivial = at least 2 stored values and a query returning at least 2 ids; distinct by (history, queries)",
+		"random mutation histories (1-30 creates / key-changing and key-keeping updates / deletes / failing operations over 4 ids, two indexes, one with nil keys) on a real BadgerDB, Flush, then index queries: prefix (empty, partial, full key, longer, containing NUL / ':' / 0xFF) x key filter x offset -1..3 x limit -3..3 x Reverse; every fourth history with queries racing the index maintenance; backlog histories (one writer issues 300-600, thorough up to 2000, mutations while the index worker is stalled inside Index.Key so the 256-slot task queue fills up, then release and Flush); Flush-race scenario with the index task held in Index.Key; non-trivial = at least 2 stored values and a query returning at least 2 ids; distinct by (history, queries)",
 		cases, dist, map[string]interface{}{"nul_keys": nul}, impl, 40)
 }
 
